@@ -8,6 +8,7 @@ an arbitrary connection state.  Reading of the statement: DESIGN.md section 5, C
 call kind).
 -/
 import Gotlcp.Lemmas.ConnAPI
+import Gotlcp.Lemmas.ConnAPIEof
 import Gotlcp.Generated.Facts
 
 set_option linter.unusedSimpArgs false
@@ -18,6 +19,7 @@ open Gotlcp.Model.RecordRx
 open Gotlcp.Model.ConnAPI
 open Gotlcp.Lemmas.ConnAPI
 open Gotlcp.Lemmas.RecordRx
+open Gotlcp.Lemmas.ConnAPIEof
 
 theorem C12_facts :
     Facts.missing = [] ∧
@@ -667,5 +669,295 @@ theorem C12_no_early_appdata {β : Type} (D : Dec β) (c : Ctx) (s : RxState) (w
           Bool.false_eq_true, if_false]
         repeat' split
         all_goals simp [failAlert]
+
+/-- C12 (early data, histories): while the handshake is not complete no sequence of records —
+of any length, any types, any contents, whatever protection does with them and however the
+transport ends — ever puts application data into `c.input`: `readRecord` never reports it filled. -/
+theorem C12_no_early_appdata_history {β : Type} (p : Params) (D : Dec β) (c : Ctx) (t : Tail) (stop : Bool)
+    (hc : c.hsComplete = false) :
+    ∀ (ws : List (Wire β)) (s : RxState), s.input = [] →
+      (pump p D c t stop s ws).2.2 ≠ .filled ∧ (pump p D c t stop s ws).1.input = [] := by
+  have nodata : ∀ (s : RxState) (w : Wire β) (d : Bytes), (rx p D c s w).2 ≠ .data d := by
+    intro s w d
+    unfold rx
+    split
+    · rename_i r _
+      obtain ⟨a, e⟩ := r
+      cases a <;> simp [failHdr, fail, failWith]
+    · split
+      · simp [failAlert]
+      · rename_i data _
+        generalize hr : dispatch p c { s with seq := s.seq + 1 } w.typ data = r
+        simp [dispatch, failAlert, fail, failWith, retry, hc] at hr
+        repeat' split at hr
+        all_goals (subst hr; simp)
+  intro ws
+  induction ws with
+  | nil =>
+    intro s hi
+    cases he : s.err with
+    | some e => simp [pump, he, hi]
+    | none =>
+      have hp' : pump p D c t stop s [] = ((atTail p c s t).1, [], (atTail p c s t).2) := by simp [pump, he]
+      rw [hp']
+      obtain ⟨h0, h1⟩ := atTail_shape p c s t
+      refine ⟨?_, by simp only; rw [h0, hi]⟩
+      rcases h1 with ⟨hb, _⟩ | ⟨e, h2, _⟩
+      · simp only; rw [hb]; intro h; cases h
+      · simp only; rw [h2]; intro h; cases h
+  | cons w ws ih =>
+    intro s hi
+    cases he : s.err with
+    | some e => simp [pump, he, hi]
+    | none =>
+      have hin := (rx_shape p D c s w).1
+      have hnd := nodata s w
+      generalize hr : rx p D c s w = r at hin hnd
+      obtain ⟨s', o⟩ := r
+      simp only at hin hnd
+      have hi' : s'.input = [] := by rw [hin, hi]
+      cases o with
+      | data d => exact absurd rfl (hnd d)
+      | err e => simp [pump, he, hi, hr, hi']
+      | cont =>
+        have : pump p D c t stop s (w :: ws) = pump p D c t stop s' ws := by simp [pump, he, hi, hr]
+        rw [this]; exact ih s' hi'
+      | hand =>
+        cases stop with
+        | true => simp [pump, he, hi, hr, hi']
+        | false =>
+          have : pump p D c t false s (w :: ws) = pump p D c t false s' ws := by simp [pump, he, hi, hr]
+          rw [this]; exact ih s' hi'
+      | ccs =>
+        cases stop with
+        | true => simp [pump, he, hi, hr, hi']
+        | false =>
+          have : pump p D c t false s (w :: ws) = pump p D c t false s' ws := by simp [pump, he, hi, hr]
+          rw [this]; exact ih s' hi'
+
+/-! ### end-of-stream -/
+
+theorem causeIn_mono {q T : List InItem} (h : ∀ x ∈ q, x ∈ T) (hc : CauseIn q) : CauseIn T := by
+  rcases hc with ⟨w, hw, hcn⟩ | he
+  · exact Or.inl ⟨w, h _ hw, hcn⟩
+  · exact Or.inr (h _ he)
+
+theorem noEof_of_fields {c c' : Conn} (h : NoEof c) (h1 : c'.rx = c.rx) (h2 : c'.inErrX = c.inErrX)
+    (h3 : c.hsErr ≠ some .eof → c'.hsErr ≠ some .eof) : NoEof c' :=
+  ⟨by rw [h1]; exact h.1, by rw [h2]; exact h.2.1, h3 h.2.2⟩
+
+/-- C12 (end-of-stream, cause): from any connection state in which no end-of-stream is latched,
+for every history of calls and transport events — every arrival pattern of the peer's records,
+every way and offset at which the transport ends (`eof none` = on a record boundary,
+`eof (some (hdr …))` / `eof (some (body …))` = inside a header / a body), every sequence of read
+buffer sizes, interleaved with any other calls — if some `Read` reports end-of-stream, then the
+transport stream (what was queued plus what arrived) contains a close_notify record of the peer or
+ends exactly on a record boundary. -/
+theorem C12_eof_only_at_boundary (c : Conn) (hist : List Call) (h0 : NoEof c) (h : ReadsEOF c hist) :
+    CauseIn (c.queue ++ arrivals hist) := by
+  have gen : ∀ (hist : List Call) (c : Conn) (T : List InItem), NoEof c → (∀ x ∈ c.queue, x ∈ T) →
+      (∀ x ∈ arrivals hist, x ∈ T) → ReadsEOF c hist → CauseIn T := by
+    intro hist
+    induction hist with
+    | nil => intro c T _ _ _ h; exact absurd h (by simp [ReadsEOF])
+    | cons k ks ih =>
+      intro c T h0 hq ha h
+      cases k with
+      | read n =>
+        simp only [ReadsEOF] at h
+        have hstep : (step c (.read n)) = read c n := rfl
+        rw [hstep] at h
+        rcases read_eofcases c n h0 with ⟨e1, e2, e3, _⟩ | ⟨_, _, _, _, hc⟩
+        · rcases h with ⟨_, h⟩ | h
+          · rw [e1] at h; cases h
+          · exact ih _ T e2 (fun x hx => hq x (e3 x hx)) (by simpa [arrivals] using ha) h
+        · exact causeIn_mono hq hc
+      | arrive it =>
+        simp only [ReadsEOF] at h
+        obtain ⟨a1, a2, a3, _, _, a6⟩ := arrive_queue c it
+        rcases h with ⟨⟨n, hn⟩, _⟩ | h
+        · cases hn
+        · refine ih _ T (noEof_of_fields h0 a1 a2 (fun h => by rw [a3]; exact h)) ?_ ?_ h
+          · intro x hx
+            rcases a6 x hx with h' | h'
+            · exact hq x h'
+            · subst h'; exact ha _ (by simp [arrivals])
+          · intro x hx; exact ha x (by simp [arrivals, hx])
+      | write d =>
+        simp only [ReadsEOF] at h
+        obtain ⟨b1, b2, b3, b4⟩ := step_other c (.write d) (by intro n h; cases h) (by intro i h; cases h)
+        rcases h with ⟨⟨n, hn⟩, _⟩ | h
+        · cases hn
+        · exact ih _ T (noEof_of_fields h0 b1 b2 b4) (by rw [b3]; exact hq) (by simpa [arrivals] using ha) h
+      | close =>
+        simp only [ReadsEOF] at h
+        obtain ⟨b1, b2, b3, b4⟩ := step_other c .close (by intro n h; cases h) (by intro i h; cases h)
+        rcases h with ⟨⟨n, hn⟩, _⟩ | h
+        · cases hn
+        · exact ih _ T (noEof_of_fields h0 b1 b2 b4) (by rw [b3]; exact hq) (by simpa [arrivals] using ha) h
+      | closeWrite =>
+        simp only [ReadsEOF] at h
+        obtain ⟨b1, b2, b3, b4⟩ := step_other c .closeWrite (by intro n h; cases h) (by intro i h; cases h)
+        rcases h with ⟨⟨n, hn⟩, _⟩ | h
+        · cases hn
+        · exact ih _ T (noEof_of_fields h0 b1 b2 b4) (by rw [b3]; exact hq) (by simpa [arrivals] using ha) h
+      | handshake cb =>
+        simp only [ReadsEOF] at h
+        obtain ⟨b1, b2, b3, b4⟩ := step_other c (.handshake cb) (by intro n h; cases h) (by intro i h; cases h)
+        rcases h with ⟨⟨n, hn⟩, _⟩ | h
+        · cases hn
+        · exact ih _ T (noEof_of_fields h0 b1 b2 b4) (by rw [b3]; exact hq) (by simpa [arrivals] using ha) h
+      | setWFail w =>
+        simp only [ReadsEOF] at h
+        obtain ⟨b1, b2, b3, b4⟩ := step_other c (.setWFail w) (by intro n h; cases h) (by intro i h; cases h)
+        rcases h with ⟨⟨n, hn⟩, _⟩ | h
+        · cases hn
+        · exact ih _ T (noEof_of_fields h0 b1 b2 b4) (by rw [b3]; exact hq) (by simpa [arrivals] using ha) h
+  exact gen hist c _ h0 (fun x hx => by simp [hx]) (fun x hx => by simp [hx]) h
+
+/-- … in particular: a stream that carries no close_notify and does not end on a record boundary
+(it is still open, or it ends inside a header or a body) never makes any `Read` report
+end-of-stream … -/
+theorem C12_no_eof_inside_record (c : Conn) (hist : List Call) (h0 : NoEof c)
+    (hcn : ∀ w, InItem.record w ∈ c.queue ++ arrivals hist → isCN w = false)
+    (hend : InItem.eof none ∉ c.queue ++ arrivals hist) : ¬ ReadsEOF c hist := by
+  intro h
+  rcases C12_eof_only_at_boundary c hist h0 h with ⟨w, hw, hc⟩ | he
+  · rw [hcn w hw] at hc; cases hc
+  · exact hend he
+
+/-- … and where the transport ends inside a record the record layer reports unexpected-EOF (or
+refuses the partial header on its own grounds), latched. -/
+theorem C12_unexpected_eof_inside_record (c : Ctx) (s : RxState) (t : Tail) (pt : Partial)
+    (hp : t.part = some pt) (hc : t.closed = true) :
+    ((atTail P c s t).2 = .err .unexpectedEOF ∧ (atTail P c s t).1.err = some .unexpectedEOF) ∨
+    ((atTail P c s t).2 = .err .header ∧ (atTail P c s t).1.err = some .header) := by
+  unfold atTail
+  rw [hp]
+  cases pt with
+  | hdr ty k => simp [hc]
+  | body ty v n =>
+    simp only
+    split
+    · rename_i r hr
+      obtain ⟨a, e⟩ := r
+      have := hdrCheck_header _ _ _ _ _ _ _ hr
+      subst this
+      right
+      cases a <;> simp [failHdr, fail, failWith]
+    · simp [hc]
+
+/-- C12 (end-of-stream, completeness): from any connection state with no end-of-stream latched, for
+every history as above: at the first `Read` that reports end-of-stream, the bytes all reads have
+delivered are exactly what was pending plus every byte of application data the peer wrote before
+it closed (before its close_notify, or before the transport ended) — nothing is missing, nothing
+is added (if something was already latched on the read side no `Read` reports end-of-stream at all).  `arr` is what the transport had delivered by then. -/
+theorem C12_eof_after_all_data (c : Conn) (hist : List Call) (h0 : NoEof c) (d : Bytes) (arr : List InItem)
+    (h : untilEOF c hist [] [] = some (d, arr)) :
+    d = c.rx.input ++ appOf (c.queue ++ arr) := by
+  have gen : ∀ (hist : List Call) (c : Conn) (acc : Bytes) (arr : List InItem) (B : List InItem) (inp0 : Bytes),
+      NoEof c →
+      (Live c → acc ++ c.rx.input ++ appOf c.queue = inp0 ++ appOf (B ++ arr) ∧ closedQ c.queue = closedQ (B ++ arr)) →
+      ∀ d arr', untilEOF c hist acc arr = some (d, arr') → d = inp0 ++ appOf (B ++ arr') := by
+    intro hist
+    induction hist with
+    | nil => intro c acc arr B inp0 _ _ d arr' h; simp [untilEOF] at h
+    | cons k ks ih =>
+      intro c acc arr B inp0 h0 hinv d arr' h
+      cases k with
+      | read n =>
+        simp only [untilEOF] at h
+        have hstep : (step c (.read n)) = read c n := rfl
+        rw [hstep] at h
+        rcases read_eofcases c n h0 with ⟨e1, e2, e3, e4⟩ | ⟨z1, z2, z3, z4, _⟩
+        · rw [e1] at h
+          simp only [Bool.false_eq_true, if_false] at h
+          refine ih _ _ _ B inp0 e2 ?_ d arr' h
+          intro hl
+          obtain ⟨l1, l2, l3⟩ := e4 hl
+          obtain ⟨i1, i2⟩ := hinv l1
+          refine ⟨?_, by rw [l3]; exact i2⟩
+          rw [← i1]
+          simp only [List.append_assoc]
+          rw [← List.append_assoc (read c n).2.bytes, l2]
+        · rw [z1] at h
+          simp only [Res.isEOF, if_true, Res.bytes, List.append_nil, Option.some.injEq, Prod.mk.injEq] at h
+          obtain ⟨rfl, rfl⟩ := h
+          obtain ⟨i1, _⟩ := hinv z2
+          rw [z3, z4] at i1
+          simpa using i1
+      | arrive it =>
+        simp only [untilEOF] at h
+        obtain ⟨a1, a2, a3, a4, a5, _⟩ := arrive_queue c it
+        refine ih _ _ _ B inp0 (noEof_of_fields h0 a1 a2 (fun h => by rw [a3]; exact h)) ?_ d arr' h
+        intro hl
+        have hl0 : Live c := ⟨by rw [← a1]; exact hl.1, by rw [← a2]; exact hl.2⟩
+        obtain ⟨i1, i2⟩ := hinv hl0
+        rw [a1, a4, a5, ← List.append_assoc B arr [it]]
+        refine ⟨?_, by rw [closedQ_append, closedQ_append (B ++ arr), i2]⟩
+        rw [appOf_append, appOf_append (B ++ arr), i2]
+        split
+        · exact i1
+        · rw [← List.append_assoc, i1, List.append_assoc]
+      | write dd =>
+        simp only [untilEOF] at h
+        obtain ⟨b1, b2, b3, b4⟩ := step_other c (.write dd) (by intro n h; cases h) (by intro i h; cases h)
+        refine ih _ _ _ B inp0 (noEof_of_fields h0 b1 b2 b4) ?_ d arr' h
+        intro hl
+        have hl0 : Live c := ⟨by rw [← b1]; exact hl.1, by rw [← b2]; exact hl.2⟩
+        rw [b1, b3]; exact hinv hl0
+      | close =>
+        simp only [untilEOF] at h
+        obtain ⟨b1, b2, b3, b4⟩ := step_other c .close (by intro n h; cases h) (by intro i h; cases h)
+        refine ih _ _ _ B inp0 (noEof_of_fields h0 b1 b2 b4) ?_ d arr' h
+        intro hl
+        have hl0 : Live c := ⟨by rw [← b1]; exact hl.1, by rw [← b2]; exact hl.2⟩
+        rw [b1, b3]; exact hinv hl0
+      | closeWrite =>
+        simp only [untilEOF] at h
+        obtain ⟨b1, b2, b3, b4⟩ := step_other c .closeWrite (by intro n h; cases h) (by intro i h; cases h)
+        refine ih _ _ _ B inp0 (noEof_of_fields h0 b1 b2 b4) ?_ d arr' h
+        intro hl
+        have hl0 : Live c := ⟨by rw [← b1]; exact hl.1, by rw [← b2]; exact hl.2⟩
+        rw [b1, b3]; exact hinv hl0
+      | handshake cb =>
+        simp only [untilEOF] at h
+        obtain ⟨b1, b2, b3, b4⟩ := step_other c (.handshake cb) (by intro n h; cases h) (by intro i h; cases h)
+        refine ih _ _ _ B inp0 (noEof_of_fields h0 b1 b2 b4) ?_ d arr' h
+        intro hl
+        have hl0 : Live c := ⟨by rw [← b1]; exact hl.1, by rw [← b2]; exact hl.2⟩
+        rw [b1, b3]; exact hinv hl0
+      | setWFail w =>
+        simp only [untilEOF] at h
+        obtain ⟨b1, b2, b3, b4⟩ := step_other c (.setWFail w) (by intro n h; cases h) (by intro i h; cases h)
+        refine ih _ _ _ B inp0 (noEof_of_fields h0 b1 b2 b4) ?_ d arr' h
+        intro hl
+        have hl0 : Live c := ⟨by rw [← b1]; exact hl.1, by rw [← b2]; exact hl.2⟩
+        rw [b1, b3]; exact hinv hl0
+  exact gen hist c [] [] c.queue c.rx.input h0 (fun _ => ⟨by simp, by simp⟩) d arr h
+
+/-! the end-of-stream theorems are not vacuous -/
+section EofExamples
+def exConn : Conn := { hsDone := true, rcc := true }
+def exData (b : Bytes) : Call := .arrive (.record ⟨23, 257, b⟩)
+def exCloseNotify : Call := .arrive (.record ⟨21, 257, [1, 0]⟩)
+
+-- data, more data while reading with small buffers, a warning, close_notify, data after it:
+-- end-of-stream comes after exactly the five bytes written before the close_notify
+example : untilEOF exConn
+    [exData [1, 2, 3], .read 2, exData [4, 5], .read 2, .arrive (.record ⟨21, 257, [1, 90]⟩), .write [9],
+     exCloseNotify, exData [6], .read 2, .read 2, .read 2] [] [] =
+    some ([1, 2, 3, 4, 5], [.record ⟨23, 257, [1, 2, 3]⟩, .record ⟨23, 257, [4, 5]⟩, .record ⟨21, 257, [1, 90]⟩,
+      .record ⟨21, 257, [1, 0]⟩, .record ⟨23, 257, [6]⟩]) := by decide
+example : NoEof exConn := ⟨by decide, by decide, by decide⟩
+-- the transport ends on a record boundary: end-of-stream; inside a header or a body: unexpected EOF, never EOF
+example : run exConn [exData [1], .arrive (.eof none), .read 4, .read 4] = [.event, .event, .ok [1], .err .eof] := by decide
+example : run exConn [exData [1], .arrive (.eof (some (.hdr 23 3))), .read 4, .read 4, .read 4] =
+    [.event, .event, .ok [1], .err .unexpectedEOF, .err .unexpectedEOF] := by decide
+example : run exConn [exData [1], .arrive (.eof (some (.body 23 257 40))), .read 4, .read 4] =
+    [.event, .event, .ok [1], .err .unexpectedEOF] := by decide
+example : ReadsEOF exConn [exData [1], .arrive (.eof none), .read 4, .read 4] := by
+  simp only [ReadsEOF]; right; right; right; left; exact ⟨⟨4, rfl⟩, by decide⟩
+end EofExamples
 
 end Gotlcp.Props.C12
